@@ -175,6 +175,16 @@ func (u *UserHash) writeHashStr(password string, isAdmin bool, mayCreate bool) e
 	}
 	defer file.Close() //nolint:errcheck
 
+	// if we created the (still empty) file above, don't leave it behind when something goes wrong
+	renamed := false
+	if mayCreate {
+		defer func() {
+			if !renamed {
+				os.Remove(file.Name()) //nolint:errcheck
+			}
+		}()
+	}
+
 	tmp, err := u.store.getTempFile()
 	if err != nil {
 		return err
@@ -210,6 +220,7 @@ func (u *UserHash) writeHashStr(password string, isAdmin bool, mayCreate bool) e
 	if err := os.Rename(tmp.Name(), file.Name()); err != nil {
 		return err
 	}
+	renamed = true
 
 	// Flush the move to disk
 	dir, err := os.Open(filepath.Dir(file.Name()))
